@@ -131,6 +131,11 @@ let handle toks =
   | ["wlist"; ty; c] -> enc_out (T.write_list_begin (n_of_int (int_of_string ty)) (z_of_shex c) T.encoder_init)
   | ["wmap"; kt; vt; c] ->
       enc_out (T.write_map_begin (n_of_int (int_of_string kt)) (n_of_int (int_of_string vt)) (z_of_shex c) T.encoder_init)
+  | ["wlevel"; k; j] ->
+      let k = int_of_string k and j = int_of_string j in
+      let rec b i (r : T.encoder T.res) = if i = 0 then r else b (i - 1) (match r with T.Ok e -> T.write_struct_begin e | x -> x) in
+      let rec en i (r : T.encoder T.res) = if i = 0 then r else en (i - 1) (match r with T.Ok e -> T.write_struct_end e | x -> x) in
+      res_line (en j (b k (T.Ok T.encoder_init))) (fun e -> hex_of_bytes (T.e_out e) ^ " " ^ string_of_int (nat_len e.T.e_lfid))
   | ["wnest"; k] ->
       let k = int_of_string k in
       let rec b i (r : T.encoder T.res) = if i = 0 then r else b (i - 1) (match r with T.Ok e -> T.write_struct_begin e | x -> x) in
@@ -162,6 +167,10 @@ let handle toks =
               string_of_int (int_of_n et) ^ " " ^ string_of_int (int_of_z c) ^ " " ^ pos_s d1)
           | "rmap", [] -> res_line (T.read_map_begin d) (fun (((kt, vt), c), d1) ->
               string_of_int (int_of_n kt) ^ " " ^ string_of_int (int_of_n vt) ^ " " ^ string_of_int (int_of_z c) ^ " " ^ pos_s d1)
+          | "rlevel", [j] ->
+              let rec en i (d : T.decoder) = if i = 0 then d else en (i - 1) (T.read_struct_end d) in
+              let d1 = en (int_of_string j) d in
+              "OK " ^ string_of_int (nat_len d1.T.d_lfid) ^ " " ^ pos_s d1
           | "rset", [] -> res_line (T.read_set_begin d) (fun ((et, c), d1) ->
               string_of_int (int_of_n et) ^ " " ^ string_of_int (int_of_z c) ^ " " ^ pos_s d1)
           | "ruuid", [] -> res_line (T.read_uuid d) (fun (v, d1) -> hex_of_bytes v ^ " " ^ pos_s d1)
